@@ -1312,18 +1312,26 @@ func handleLintServiceSuffix(
 }
 
 // HandleLintStablePackageNoImportUnstable is a handle function.
-var HandleLintStablePackageNoImportUnstable = bufcheckserverutil.NewLintFilesRuleHandler(handleLintStablePackageNoImportUnstable)
+//
+// Note that imports are not skipped via the helper, as the imported file may be an import
+// itself (i.e. a file of a dependency), and we need its package to determine its stability.
+// We only report on non-imports.
+var HandleLintStablePackageNoImportUnstable = bufcheckserverutil.NewRuleHandler(handleLintStablePackageNoImportUnstable)
 
 func handleLintStablePackageNoImportUnstable(
+	_ context.Context,
 	responseWriter bufcheckserverutil.ResponseWriter,
-	_ bufcheckserverutil.Request,
-	files []bufprotosource.File,
+	request bufcheckserverutil.Request,
 ) error {
+	files := request.ProtosourceFiles()
 	filePathToFile, err := bufprotosource.FilePathToFile(files...)
 	if err != nil {
 		return err
 	}
 	for _, file := range files {
+		if file.IsImport() {
+			continue
+		}
 		packageVersion, ok := protoversion.NewPackageVersionForPackage(file.Package())
 		if !ok {
 			// No package, or no version on package - unstable to determine if stable.
